@@ -248,7 +248,7 @@ fn run(cfg: &Cfg) -> Report {
         cfg,
         "f64 values by class (integers around 10^k and 2^53, notation switch points 1e-7..1e7 ± 3 ulp, decimal rounding midpoints at 1-16 digits ± 2 ulp, short decimals, subnormals, extremes, random bit patterns, log-uniform magnitudes, NaN/inf/±0; both signs) x separator in {_ , space ' none} x grouping threshold 1-10 x significant digits 1-17. The value is obtained by interpreting its shortest literal (bit-exactness verified), formatted with Value::pretty_print_with. Oracle: keywords for NaN/inf; otherwise, separator removed, the text parses in Rust and is accepted by numbat as a literal with the same value; integers below 2^53 show all digits, grouped in threes iff the digit count reaches the threshold; other values equal x rounded to the configured significant digits (reference: Rust's exact {:.Ne} formatting of x and of its two neighbouring floats, i.e. either neighbour is accepted within 1 ulp of a midpoint). non-trivial = not an integer below 1000; distinct = (bits, options)",
     );
-    let cases = cfg.tier.pick(50000u32, 2000000u32);
+    let cases = cfg.tier.pick(500000u32, 4000000u32);
     rep.absorb(run_proptest(
         cfg,
         "format",
